@@ -12,7 +12,7 @@ RULE = ("peak-only series: exhaustive over the 5-level alphabet {-2..2} up to le
         "measures: random records, b in (0.05, 1], cut_off in [0, 0.1], scalar and array b (Float twin, budget 1e-9). "
         "distinct = hash of the series (+parameters); non-trivial = length >= 3 and not constant")
 TIE = "correspondence (hand models Model/Peaks.lean, Model/PowerLaw.lean)"
-PROP_MODULES = ['C13', 'C13PowerLaw', 'C13Scale', 'C13Gen']
+PROP_MODULES = ['C13', 'C13PowerLaw', 'C13Scale', 'C13Gen', 'C13GenSeries']
 NOT_PROVED = ["pow rounding in the power-law measures (Float twin vs impl, measured)",
               "inverse relation for cut_off > 0 (approximate by construction; evaluated numerically only)"]
 
@@ -193,3 +193,326 @@ def _cmpf(ctx, fn, impl, model):
     msg, g = cmp_budget([float(x) for x in impl], model, Fraction(1, 10**9), abs_floor=Fraction(1, 10**300))
     ctx.gap(fn, g)
     return msg
+
+
+# ---- extras2 (harness extension hx_b): cleaned-data helpers, containers, exact scaling, large instances, array b ------------------------------
+
+def _np_peaks(a):
+    """index 0, first sample of every plateau that is a strict local extremum, first sample of the final constant run (NumPy comparisons only)"""
+    a = np.asarray(a, dtype=float)
+    idx = np.concatenate(([0], np.nonzero(a[1:] != a[:-1])[0] + 1))
+    c = a[idx]
+    up = c[1:] > c[:-1]
+    turn = np.nonzero(up[1:] != up[:-1])[0] + 1
+    return np.concatenate(([idx[0]], idx[turn], [idx[-1]])) if len(idx) > 1 else idx[:1]
+
+
+def _eq(x, y):
+    x, y = np.asarray(x), np.asarray(y)
+    return x.shape == y.shape and bool(np.all(x == y))
+
+
+def _np_clauses(v, d, p):
+    """C13.a/b on a record whose values are small multiples of 1/8 (every float sum below is exact); returns None or the violated clause"""
+    v = np.asarray(v, dtype=float)
+    d = np.asarray(d, dtype=float)
+    p = np.asarray(p, dtype=float)
+    n = len(v)
+    if d.shape != (n,) or p.shape != (n,):
+        return 'series have the record length'
+    P = _np_peaks(v)
+    off = np.ones(n, dtype=bool)
+    off[P] = False
+    if np.any(d[off] != 0) or np.any(p[off] != 0):
+        return 'zero away from peaks'
+    if d[0] != 0 or np.any(np.abs(d[P[1:]]) != np.abs(np.diff(v[P]))):
+        return '|delta| at the k-th peak == |change between consecutive peak values|'
+    tvv = float(np.sum(np.abs(np.diff(v))))
+    if float(np.sum(np.abs(d))) != tvv:
+        return 'sum|delta| == total variation'
+    if abs(float(np.sum(d))) != abs(float(v[-1] - v[0])):
+        return '|sum delta| == |x[-1]-x[0]|'
+    last_dir = 1.0 if v[P[-1]] > v[P[-2]] else -1.0
+    if float(np.sum(p)) != tvv / 2 + float(v[-1] - v[0]) * last_dir / 2:
+        return 'sum(pseudo-cyclic) == TV/2 + (x[-1]-x[0])*dir/2'
+    return None
+
+
+def _x2_wrappers(ctx, cur):
+    from eqsig.fns import peaks_and_crossings as pc
+    from eqsig import im
+    rng = ctx.rng
+    quick = ctx.tier == 'quick'
+
+    # ---- (3) the *_4_cleaned_data helpers of the anchored mechanism ----------------------------------------------------------------------
+    for it in range(80 if quick else 800):
+        n = gen.log_int(rng, 3, 120)
+        kind = rng.choice(['int', 'dyadic', 'plateau', 'offset-plateau', 'tiny-scale'])
+        v = (gen.int_record(rng, n) if kind == 'int' else gen.dyadic_record(rng, n) if kind == 'dyadic' else gen.plateau_record(rng, n) if kind == 'plateau'
+             else gen.plateau_record(rng, n, levels=(3, 4, 5, 7), p_repeat=0.6) if kind == 'offset-plateau' else gen.dyadic_record(rng, n) * 2.0 ** -rng.choice([30, 60]))
+        c = v[np.concatenate(([True], v[1:] != v[:-1]))]          # no adjacent repeats
+        if len(c) < 2:
+            continue
+        ctx.hist('extras2/cleaned-helpers/' + kind)
+        ctx.count_case(('x2h', c.tobytes()), len(c) >= 3)
+        inputs = {'values (no adjacent repeats)': c.tolist()}
+        cur.clear()
+        cur.update(inputs)
+        cc = [fr(x) for x in c]
+        snap = c.copy()
+        rd = call_impl(pc.determine_peak_only_delta_series_4_cleaned_data, c)
+        P = _np_peaks(c)
+        ok = rd[0] == 'ok' and np.shape(rd[1]) == c.shape
+        if ok:
+            d = [fr(x) for x in rd[1]]
+            Ps = set(int(i) for i in P)
+            ok = (all(d[i] == 0 for i in range(len(c)) if i not in Ps) and d[0] == 0
+                  and all(d[int(P[k])] == cc[int(P[k])] - cc[int(P[k - 1])] for k in range(1, len(P)))
+                  and sum(abs(x) for x in d) == tv(cc) and sum(d) == cc[-1] - cc[0])
+        ctx.oracle('C13.a determine_peak_only_delta_series_4_cleaned_data: zero away from peaks, change between consecutive peak values at the peaks, '
+                   'sum|delta| == total variation, sum delta == x[-1]-x[0]', ok, inputs, detail={'got': rd[1], 'peaks': P})
+        ctx.oracle('C13 the cleaned-data helpers leave their input unchanged', _eq(c, snap), inputs)
+        # normalised as the main functions do (first value 0, first move upwards): helper == main function
+        z = (c - c[0]) * np.sign(c[1] - c[0])
+        if all(fr(a) == (x - cc[0]) * (1 if cc[1] > cc[0] else -1) for a, x in zip(z, cc)):
+            for dtype in ((float, int) if kind in ('int', 'plateau', 'offset-plateau') else (float,)):
+                zz = z.astype(dtype)
+                r1, m1 = call_impl(pc.determine_peak_only_delta_series_4_cleaned_data, zz.copy()), call_impl(pc.determine_peaks_only_delta_series, zz.copy())
+                r2, m2 = call_impl(pc._determine_peak_only_series_4_cleaned_data, zz.copy()), call_impl(pc.determine_pseudo_cyclic_peak_only_series, zz.copy())
+                ctx.oracle('C13.a determine_peak_only_delta_series_4_cleaned_data == determine_peaks_only_delta_series on a series without adjacent repeats '
+                           'that starts at 0 and moves up first', r1[0] == 'ok' and m1[0] == 'ok' and _eq(r1[1], m1[1]),
+                           {'values': zz.tolist(), 'dtype': str(zz.dtype)}, detail={'helper': r1[1], 'main': m1[1]})
+                if r2[0] == 'ok' and np.shape(r2[1]) == zz.shape:
+                    zq, pq = [fr(x) for x in zz], [fr(x) for x in r2[1]]
+                    Pz = [int(i) for i in _np_peaks(zz)]
+                    ldir = 1 if zq[Pz[-1]] > zq[Pz[-2]] else -1
+                    ctx.oracle('C13.b _determine_peak_only_series_4_cleaned_data (series without adjacent repeats starting at 0, moving up first): zero away '
+                               'from peaks, alternating-sign peak values, sum == TV/2 + (x[-1]-x[0])*dir/2',
+                               all(pq[i] == 0 for i in range(len(zq)) if i not in set(Pz)) and all(pq[i] == (-1) ** (k + 1) * zq[i] for k, i in enumerate(Pz))
+                               and sum(pq) == tv(zq) / 2 + (zq[-1] - zq[0]) * ldir / 2, {'values': zz.tolist(), 'dtype': str(zz.dtype)}, detail={'got': r2[1]})
+                ctx.oracle('C13.b _determine_peak_only_series_4_cleaned_data == determine_pseudo_cyclic_peak_only_series on a series without adjacent '
+                           'repeats that starts at 0 and moves up first', r2[0] == 'ok' and m2[0] == 'ok' and _eq(r2[1], m2[1]),
+                           {'values': zz.tolist(), 'dtype': str(zz.dtype)}, detail={'helper': r2[1], 'main': m2[1]})
+        # ---- (4) containers / dtypes of the main functions (narrow and unsigned integer dtypes: see NOTES - silent wrap-around resp. TypeError
+        # on the pinned tree, not demanded)
+        if it % 2 == 0 and len(set(v.tolist())) > 1:
+            want_d, want_p = pc.determine_peaks_only_delta_series(v), pc.determine_pseudo_cyclic_peak_only_series(v)
+            for lab, cont in gen.container_variants(v):
+                ctx.hist('extras2/container/' + lab)
+                snapc = np.array(cont)
+                gd, gp = call_impl(pc.determine_peaks_only_delta_series, cont), call_impl(pc.determine_pseudo_cyclic_peak_only_series, cont)
+                ctx.oracle('C13 peak-only series do not depend on the container or dtype holding the series (delta)', gd[0] == 'ok' and _eq(gd[1], want_d),
+                           {'values': v.tolist(), 'container': lab}, detail={'got': gd[1], 'float64 ndarray': want_d})
+                ctx.oracle('C13 peak-only series do not depend on the container or dtype holding the series (pseudo-cyclic)', gp[0] == 'ok' and _eq(gp[1], want_p),
+                           {'values': v.tolist(), 'container': lab}, detail={'got': gp[1], 'float64 ndarray': want_p})
+                ctx.oracle('input array unchanged', _eq(np.array(cont), snapc) and np.array(cont).dtype == snapc.dtype, {'values': v.tolist(), 'container': lab})
+
+
+def _x2_scale(ctx, cur):
+    from eqsig.fns import peaks_and_crossings as pc
+    from eqsig import im
+    rng = ctx.rng
+    quick = ctx.tier == 'quick'
+
+    # ---- (2) exact covariance under scaling by powers of two: the peak-only series are homogeneous of degree 1 (2^-600 is the documented
+    # underflow limitation of the sign test and not demanded); the equivalent number of cycles is of degree 0 when record and reference
+    # amplitude scale together (cut_off = 0: the ratios a_ref/|peak| are reproduced exactly, so the series is bit for bit the same)
+    for it in range(20 if quick else 200):
+        n = gen.log_int(rng, 3, 200)
+        v = gen.dyadic_record(rng, n) if it % 2 else gen.plateau_record(rng, n)
+        if len(set(v.tolist())) < 2:
+            continue
+        cur.clear()
+        cur.update({'values': v.tolist()})
+        d0, p0 = pc.determine_peaks_only_delta_series(v), pc.determine_pseudo_cyclic_peak_only_series(v)
+        for k in (600, 350, -350, 900):
+            ctx.hist('extras2/scale/2^%d' % k)
+            ctx.count_case(('x2s', k, v.tobytes()), True)
+            w = v * 2.0 ** k
+            with np.errstate(all='ignore'):
+                gd, gp = call_impl(pc.determine_peaks_only_delta_series, w), call_impl(pc.determine_pseudo_cyclic_peak_only_series, w)
+            ctx.oracle('C13 peak-only delta series scales exactly with the series (power of two)', gd[0] == 'ok' and gen.scaled_exactly(gd[1], d0, 2.0 ** k),
+                       {'values': v.tolist(), 'scale': '2**%d' % k}, detail={'scaled/2^k': None if gd[0] != 'ok' else (np.asarray(gd[1]) / 2.0 ** k)[:12], 'base': d0[:12]})
+            ctx.oracle('C13 pseudo-cyclic peak series scales exactly with the series (power of two)', gp[0] == 'ok' and gen.scaled_exactly(gp[1], p0, 2.0 ** k),
+                       {'values': v.tolist(), 'scale': '2**%d' % k}, detail={'scaled/2^k': None if gp[0] != 'ok' else (np.asarray(gp[1]) / 2.0 ** k)[:12], 'base': p0[:12]})
+    for it in range(15 if quick else 150):
+        n = gen.log_int(rng, 8, 300)
+        v = gen.noise_record(rng, n) if it % 2 else gen.dyadic_record(rng, n)
+        if len(set(v.tolist())) < 3 or float(np.max(np.abs(v))) == 0:
+            continue
+        cur.clear()
+        cur.update({'values': v.tolist()})
+        b = rng.choice([0.05001, 0.1, 0.25, 0.34, 0.5, 1.0]) if rng.random() < 0.6 else rng.uniform(0.0501, 1.0)
+        a_ref = float(np.max(np.abs(v))) * rng.choice([0.3, 0.65, 1.0, 2.0])
+        with np.errstate(all='ignore'):
+            base = im.calc_n_cyc_array_w_power_law(v, a_ref, b, cut_off=0.0)
+        for k in (600, -350, 350, -200):
+            ctx.hist('extras2/powerlaw-scale/2^%d' % k)
+            with np.errstate(all='ignore'):
+                g = call_impl(im.calc_n_cyc_array_w_power_law, v * 2.0 ** k, a_ref * 2.0 ** k, b, cut_off=0.0)
+            ctx.oracle('C13.d cycles are EXACTLY invariant when record and reference amplitude are scaled by the same power of two (cut_off = 0)',
+                       g[0] == 'ok' and _eq(g[1], base), {'values': v, 'a_ref': a_ref, 'b': b, 'cut_off': 0.0, 'scale': '2**%d' % k},
+                       detail={'scaled_tail': None if g[0] != 'ok' else np.asarray(g[1]).reshape(-1)[-3:], 'base_tail': base.reshape(-1)[-3:]})
+        # array-valued b for the cycle series: column j is the scalar-b_j series
+        if it % 3 == 0:
+            bb = np.array([b, min(1.0, b * 1.5), 0.2])
+            cut = rng.choice([0.0, 0.05])
+            r = call_impl(im.calc_n_cyc_array_w_power_law, v, a_ref, bb, cut_off=cut)
+            with np.errstate(all='ignore'):
+              ok = r[0] == 'ok' and np.shape(r[1]) == (n, 3) and all(
+                bool(np.allclose(np.asarray(r[1])[:, j], im.calc_n_cyc_array_w_power_law(v, a_ref, float(bb[j]), cut_off=cut).reshape(-1), rtol=1e-12, atol=0)) for j in range(3))
+            ctx.oracle('C13.d array b (cycles): column j equals the scalar-b_j series', ok, {'values': v, 'a_ref': a_ref, 'b': bb, 'cut_off': cut})
+
+
+def _x2_large(ctx, cur):
+    from eqsig.fns import peaks_and_crossings as pc
+    from eqsig import im
+    rng = ctx.rng
+    quick = ctx.tier == 'quick'
+
+    # ---- (1) large instances: tens of thousands of samples / thousands of peaks; all clauses in O(n) with NumPy (values are multiples of 1/8,
+    # every sum is exact), whole == parts at a reported peak, integer dtype, exact scaling; the power-law series sample by sample
+    sizes = [('int-walk', rng.choice([5000, 8192, 12000])), ('plateau', rng.choice([20000, 32768, 60000])), ('dyadic-walk', rng.choice([10000, 16384, 50000]))]
+    if not quick:
+        sizes += [(k, m) for k in ('int-walk', 'plateau', 'dyadic-walk') for m in (4096, 5001, 65536, 100000)]
+    for kind, n in sizes:
+        seed = rng.randrange(2 ** 31)
+        g = np.random.default_rng(seed)
+        if kind == 'int-walk':
+            v = g.integers(-3, 4, size=n).astype(float) + float(g.integers(-5, 6))
+        elif kind == 'plateau':
+            v = np.repeat(g.integers(-5, 6, size=n // 2 + 1), g.integers(1, 4, size=n // 2 + 1))[:n].astype(float)
+            v = np.concatenate((v, np.full(n - len(v), v[-1]))) if len(v) < n else v
+        else:
+            v = np.cumsum(g.integers(-2, 3, size=n) * np.repeat(g.choice([-1, 1], size=n // 40 + 1), 40)[:n]) / 8.0
+        desc = {'generator': 'c13.extras2 large', 'kind': kind, 'n': n, 'numpy_seed': seed}
+        cur.clear()
+        cur.update(desc)
+        ctx.hist('extras2/large/' + kind)
+        ctx.count_case(('x2l', kind, n, seed), True, sample=desc)
+        snap = v.copy()
+        rd, rp = call_impl(pc.determine_peaks_only_delta_series, v), call_impl(pc.determine_pseudo_cyclic_peak_only_series, v)
+        bad = _np_clauses(v, rd[1], rp[1]) if rd[0] == 'ok' and rp[0] == 'ok' else 'both series are returned'
+        ctx.oracle('C13.a/b (large) ' + (bad or 'length / zero away from peaks / |delta| at peaks / total variation / end offset / pseudo-cyclic sum'), bad is None, desc,
+                   detail={'turning points': int(len(_np_peaks(v)))})
+        ctx.oracle('input array unchanged', _eq(v, snap), desc)
+        if bad is not None:
+            continue
+        d, p = np.asarray(rd[1]), np.asarray(rp[1])
+        P = _np_peaks(v)
+        cut = int(P[rng.randrange(1, len(P) - 1)])
+        dl, dr = pc.determine_peaks_only_delta_series(v[:cut + 1]), pc.determine_peaks_only_delta_series(v[cut:])
+        ctx.oracle('C13.a (large) whole == parts: |delta series| of the series split at a reported peak', _eq(np.abs(np.concatenate((dl, dr[1:]))), np.abs(d)),
+                   {**desc, 'split_at': cut})
+        sh = float(rng.choice([-3, 2, 7]))
+        ctx.oracle('C13.c (large) both series invariant under a constant shift', _eq(pc.determine_peaks_only_delta_series(v + sh), d) and
+                   _eq(pc.determine_pseudo_cyclic_peak_only_series(v + sh), p), {**desc, 'shift': sh})
+        for lab, cont in gen.container_variants(v * 8 if kind == 'dyadic-walk' else v, arrays_only=True):
+            f = 8.0 if kind == 'dyadic-walk' else 1.0
+            ctx.oracle('C13 (large) peak-only series do not depend on the dtype / memory layout of the series', _eq(pc.determine_peaks_only_delta_series(cont), d * f)
+                       and _eq(pc.determine_pseudo_cyclic_peak_only_series(cont), p * f), {**desc, 'container': lab, 'values multiplied by': f})
+        with np.errstate(all='ignore'):
+            for k in (600, -350):
+                ctx.oracle('C13 (large) peak-only series scale exactly with the series (power of two)',
+                           gen.scaled_exactly(pc.determine_peaks_only_delta_series(v * 2.0 ** k), d, 2.0 ** k) and
+                           gen.scaled_exactly(pc.determine_pseudo_cyclic_peak_only_series(v * 2.0 ** k), p, 2.0 ** k), {**desc, 'scale': '2**%d' % k})
+    for it in range(2 if quick else 8):
+        n = rng.choice([6000, 20000, 50000]) if quick else rng.choice([4096, 5001, 20000, 65536, 100000])
+        seed = rng.randrange(2 ** 31)
+        v = np.random.default_rng(seed).standard_normal(n) * rng.choice([1.0, 1e-3, 250.0])
+        b = rng.choice([0.1, 0.25, 0.34, 0.5, 1.0])
+        cut = rng.choice([0.0, 0.0, 0.05])
+        n_cyc = rng.choice([1, 5, 15, 2.5])
+        peak = float(np.max(np.abs(v)))
+        a_ref = peak * rng.choice([0.3, 0.65, 1.0])
+        desc = {'generator': 'c13.extras2 large power law: standard_normal(n) * amp', 'n': n, 'numpy_seed': seed, 'amp': float(peak), 'b': b, 'cut_off': cut,
+                'a_ref': a_ref, 'n_cyc': n_cyc}
+        cur.clear()
+        cur.update(desc)
+        ctx.hist('extras2/large/powerlaw')
+        ctx.count_case(('x2lp', n, seed, b, cut), True, sample=desc)
+        S = np.asarray(pc.get_switched_peak_array_indices(v))
+        pk = np.abs(v[S])
+        rn, ra = call_impl(im.calc_n_cyc_array_w_power_law, v, a_ref, b, cut_off=cut), call_impl(im.calc_cyc_amp_array_w_power_law, v, n_cyc, b)
+        idx = np.arange(n)
+        cnt = np.searchsorted(S, idx, side='right')            # switched peaks at or before each sample
+        ok = rn[0] == 'ok' and np.asarray(rn[1]).reshape(-1).shape == (n,)
+        if ok:
+            ns = np.asarray(rn[1]).reshape(-1)
+            pk_c = np.where(pk < cut * peak, 1.0e-14, pk)
+            cum = np.concatenate(([0.0], np.cumsum(0.5 * (pk_c / a_ref) ** (1 / b))))
+            want = cum[cnt]
+            sel = idx > 0 if S[0] == 0 else idx >= 0                # sample 0 is a double knot when the first switched peak is sample 0
+            ok = bool(np.all(np.diff(ns) >= 0)) and bool(np.allclose(ns[sel], want[sel], rtol=1e-9, atol=1e-300))
+        ctx.oracle('C13.d (large) equivalent cycles: record length, non-decreasing, at every sample == sum over the switched peaks so far of 0.5*(|peak|/a_ref)^(1/b)',
+                   ok, desc)
+        ok = ra[0] == 'ok' and np.shape(ra[1]) == (n,)
+        if ok:
+            am = np.asarray(ra[1])
+            cum = np.concatenate(([0.0], np.cumsum(pk ** (1 / b) / 2 / n_cyc)))
+            want = cum[cnt] ** b
+            ok = bool(np.all(np.diff(am) >= -1e-12 * am.max())) and bool(np.allclose(am, want, rtol=1e-9, atol=1e-300))
+        ctx.oracle('C13.d (large) equivalent amplitude: record length, non-decreasing, at every sample == (sum over the switched peaks so far of |peak|^(1/b) / (2 n_cyc))^b',
+                   ok, desc)
+        if rn[0] == 'ok' and cut == 0.0 and np.asarray(rn[1]).reshape(-1)[-1] > 0:
+            amp = im.calc_cyc_amp_array_w_power_law(v, float(np.asarray(rn[1]).reshape(-1)[-1]), b)[-1]
+            ctx.oracle('C13.d (large) mutual inverse: amplitude(N = cycles(a_ref)) == a_ref', abs(amp - a_ref) <= 1e-8 * a_ref, desc, detail={'amp': float(amp)})
+        comb, gm = im.calc_cyc_amp_combined_arrays_w_power_law(v, v, n_cyc, b), im.calc_cyc_amp_gm_arrays_w_power_law(v, v, n_cyc, b)
+        if ra[0] == 'ok':
+            ctx.oracle('C13.d (large) two identical components: combined == 2^b * single, geometric mean == single',
+                       bool(np.allclose(comb, 2 ** b * np.asarray(ra[1]), rtol=1e-9, atol=1e-300)) and bool(np.allclose(gm, ra[1], rtol=1e-9, atol=1e-300)), desc)
+        with np.errstate(all='ignore'):
+            k = rng.choice([600, -350])
+            if rn[0] == 'ok' and cut == 0.0:
+                ctx.oracle('C13.d (large) cycles are EXACTLY invariant when record and reference amplitude are scaled by the same power of two (cut_off = 0)',
+                           _eq(im.calc_n_cyc_array_w_power_law(v * 2.0 ** k, a_ref * 2.0 ** k, b, cut_off=0.0), rn[1]), {**desc, 'scale': '2**%d' % k})
+
+
+def extras2(ctx):
+    from _hxb_common import guarded_sections
+    guarded_sections(ctx, 'C13', [('wrappers', _x2_wrappers), ('scale', _x2_scale), ('large', _x2_large)])
+
+
+_run_main2 = run
+
+
+def run(ctx):
+    _run_main2(ctx)
+    extras2(ctx)
+    ctx.flush()
+
+
+# ---- open finding F13-1: arithmetic in the record's own integer dtype (see _narrow_findings.py) -------------------------------------------
+
+import _narrow_findings as _NF  # noqa: E402
+
+
+def _narrow_table():
+    from eqsig.fns import peaks_and_crossings as pc
+    return {'determine_peaks_only_delta_series': lambda x, dt: pc.determine_peaks_only_delta_series(x),
+            'determine_pseudo_cyclic_peak_only_series': lambda x, dt: pc.determine_pseudo_cyclic_peak_only_series(x)}
+
+
+try:
+    KNOWN_MATCHERS
+except NameError:
+    KNOWN_MATCHERS = {}
+KNOWN_MATCHERS['F13-1'] = _NF.matcher('F13-1')
+_known_witness_prev = globals().get('known_witness')
+
+
+def known_witness(fid):
+    if fid == 'F13-1':
+        from eqsig.fns import peaks_and_crossings as pc
+        a = np.array([300000, 100000, 200000, 0, 300000], dtype=np.int32)
+        return not np.array_equal(pc.determine_peaks_only_delta_series(a), pc.determine_peaks_only_delta_series(a.astype(float)))
+    return _known_witness_prev(fid) if _known_witness_prev else True
+
+
+_run_main_nf = run
+
+
+def run(ctx):
+    _run_main_nf(ctx)
+    _NF.narrow_oracles(ctx, 'C13', _narrow_table())
+    ctx.flush()
